@@ -114,12 +114,15 @@ class LasAppender:
                 points.X, points.Y, points.Z = saved_X, saved_Y, saved_Z
 
     def close(self) -> None:
-        self.points_appender.done()
-        self._write_evlrs()
-        self._write_updated_header()
-
-        if self.closefd:
-            self.dest.close()
+        try:
+            self.points_appender.done()
+            self._write_evlrs()
+            self._write_updated_header()
+        finally:
+            # the destination is released as asked even when it
+            # refused the last writes
+            if self.closefd:
+                self.dest.close()
 
     def _write_evlrs(self) -> None:
         if (
